@@ -2,6 +2,7 @@ package codescan
 
 import (
 	"go/ast"
+	"sort"
 
 	"github.com/go-openapi/spec"
 )
@@ -196,13 +197,37 @@ func (s *specBuilder) buildModels() error {
 		return nil
 	}
 
-	for _, decl := range s.ctx.app.Models {
+	for _, decl := range sortedDecls(s.ctx.app.Models) {
 		if err := s.buildDiscoveredSchema(decl); err != nil {
 			return err
 		}
 	}
 
 	return s.joinExtraModels()
+}
+
+// sortedDecls returns the declarations of a model index in a stable order (package path,
+// then type name), so that the result does not depend on map iteration order when two
+// models compete for the same definition name.
+func sortedDecls(index map[*ast.Ident]*entityDecl) []*entityDecl {
+	decls := make([]*entityDecl, 0, len(index))
+	for _, decl := range index {
+		decls = append(decls, decl)
+	}
+	sort.SliceStable(decls, func(i, j int) bool {
+		pi, pj := "", ""
+		if decls[i].Pkg != nil {
+			pi = decls[i].Pkg.PkgPath
+		}
+		if decls[j].Pkg != nil {
+			pj = decls[j].Pkg.PkgPath
+		}
+		if pi != pj {
+			return pi < pj
+		}
+		return decls[i].Ident.Name < decls[j].Ident.Name
+	})
+	return decls
 }
 
 func (s *specBuilder) joinExtraModels() error {
@@ -214,7 +239,7 @@ func (s *specBuilder) joinExtraModels() error {
 	}
 
 	// process extra models and see if there is any reference to a new extra one
-	for _, decl := range tmp {
+	for _, decl := range sortedDecls(tmp) {
 		if err := s.buildDiscoveredSchema(decl); err != nil {
 			return err
 		}
